@@ -1,0 +1,102 @@
+//go:build verif
+
+package trie
+
+import (
+	"encoding/hex"
+	"fmt"
+	"strings"
+)
+
+// VerifDump renders the internal state of a trie created by this package
+// (read-only; used by the verification harness in /verif to compare the state with its model).
+//
+// Binary trie: "size=<n> " followed by the pre-order of root.left, a node being
+// "(<char hex> <t|f> <val> <left> <right>)" and nil being ".".
+//
+// Patricia trie: "size=<n> root=<id|.>" followed by one "[id bp key val left right]" per node.
+// Nodes are numbered in the order a pre-order walk over the downward links (bp increases) meets them,
+// so that the numbering does not depend on addresses; thread links are printed as the id they point to.
+func VerifDump[V any](t Trie[V]) string {
+	switch t := t.(type) {
+	case *binary[V]:
+		var b strings.Builder
+		fmt.Fprintf(&b, "size=%d ", t.size)
+		if t.root == nil {
+			b.WriteString("noroot")
+			return b.String()
+		}
+		if t.root.right != nil {
+			b.WriteString("rootright ")
+		}
+		var walk func(n *binaryNode[V])
+		walk = func(n *binaryNode[V]) {
+			if n == nil {
+				b.WriteString(".")
+				return
+			}
+			tf := "f"
+			if n.term {
+				tf = "t"
+			}
+			fmt.Fprintf(&b, "(%02x %s %v ", n.char, tf, n.val)
+			walk(n.left)
+			b.WriteString(" ")
+			walk(n.right)
+			b.WriteString(")")
+		}
+		walk(t.root.left)
+		return b.String()
+
+	case *patricia[V]:
+		var b strings.Builder
+		fmt.Fprintf(&b, "size=%d", t.size)
+		if t.root == nil {
+			b.WriteString(" root=.")
+			return b.String()
+		}
+		ids := map[*patriciaNode[V]]int{}
+		order := []*patriciaNode[V]{}
+		var number func(n *patriciaNode[V])
+		number = func(n *patriciaNode[V]) {
+			if _, seen := ids[n]; seen || n == nil {
+				return
+			}
+			ids[n] = len(order)
+			order = append(order, n)
+			if n.left != nil && n.left.bp > n.bp {
+				number(n.left)
+			}
+			if n.right != nil && n.right.bp > n.bp {
+				number(n.right)
+			}
+		}
+		number(t.root)
+		ref := func(n *patriciaNode[V]) string {
+			if n == nil {
+				return "."
+			}
+			if id, ok := ids[n]; ok {
+				return fmt.Sprint(id)
+			}
+			return "?"
+		}
+		b.WriteString(" root=0")
+		for i, n := range order {
+			key := "-"
+			if len(n.key.bits) > 0 {
+				key = hex.EncodeToString(n.key.bits)
+			}
+			fmt.Fprintf(&b, " [%d %d %s %v %s %s]", i, n.bp, key, n.val, ref(n.left), ref(n.right))
+		}
+		return b.String()
+
+	default:
+		return "unknown"
+	}
+}
+
+// VerifVerify runs the package's own invariant check (the unexported verify method).
+func VerifVerify[V any](t Trie[V]) bool {
+	return t.verify()
+}
